@@ -73,3 +73,16 @@ Definition rp_datarate (r dr : N) : option (N * N * N) :=
                      | 5 => Some (7, 7, 250) | 6 => Some (7, 8, 250) | _ => None end
   end.
 
+(* fixed channel plans (RP002 2.5.2 / 2.6.2): 64 uplink channels of 125 kHz from f0 in steps of 200 kHz, 8 uplink channels of 500 kHz from f1
+   in steps of 1.6 MHz, 8 downlink channels of 500 kHz from 923.3 MHz in steps of 600 kHz.  US915: f0 = 902.3, f1 = 903.0 MHz; AU915: 915.2, 915.9 *)
+Definition rp_uplink_channels (r : N) : list N :=
+  let '(f0, f1) := match r with 8 => (902300000, 903000000) | 4 => (915200000, 915900000) | _ => (0, 0) end in
+  match r with
+  | 4 | 8 => map (fun i => f0 + 200000 * N.of_nat i) (seq 0 64) ++ map (fun i => f1 + 1600000 * N.of_nat i) (seq 0 8)
+  | _ => []
+  end.
+Definition rp_downlink_channels (r : N) : list N :=
+  match r with 4 | 8 => map (fun i => 923300000 + 600000 * N.of_nat i) (seq 0 8) | _ => [] end.
+(* the join data rates of fixed plans: on a 125 kHz channel / on a 500 kHz channel (US915: DR0 / DR4, AU915: DR2 / DR6) *)
+Definition rp_join_dr (r : N) : N * N := match r with 8 => (0, 4) | 4 => (2, 6) | _ => (0, 0) end.
+
